@@ -101,7 +101,16 @@ def run(P, M, tables):
         used.add(key)
         if e["verdict"] == "bounded":
             nb += len(ss)
-            obl.append({"rule": "E6", "inst": f"{key[0]} {key[1]} {key[2]} x{len(ss)}: bounded ({e['reason'][:70]})", "ok": True})
+            wok, why = True, ""
+            if e.get("witness"):
+                import witness
+                wok, why = witness.check_shape(P, e["witness"])
+            obl.append({"rule": "E6", "inst": f"{key[0]} {key[1]} {key[2]} x{len(ss)}: bounded ({e['reason'][:70]})" + (" [witness checked]" if e.get("witness") else ""), "ok": wok})
+            if not wok:
+                findings.append({"rule": "E6-witness", "key": f"E6w|{key[0]}|{key[1]}|{key[2]}",
+                                 "msg": f"{key[0]}: the range argument recorded for {what} {key[2]} no longer holds: {why} ({e['reason'][:160]})",
+                                 "loc": loc, "detail": {}})
+                continue
             if len(samples) < 6:
                 samples.append({"rule": "E6", "site": loc, "kind": key[1], "types": key[2], "verdict": "bounded: " + e["reason"]})
         else:
